@@ -658,7 +658,8 @@ class Executor(object):
             successful = True
             for run in self._runs:
                 run.report_job_completed(self._runs)
-                if run.is_failed:
+                if run.completed_invocations < run.invocations:
+                    # abandoned, or never executed successfully
                     successful = False
             return successful or self._include_faulty
         finally:
